@@ -351,3 +351,69 @@ func VerifC20_Strings() {
 	vx.Cover("true", got)
 	vx.Cover("false", !got)
 }
+
+// ---- eq / neq on containers ----
+
+const numEqShapes = 8
+
+// eqValue: small containers with nil members, different key sets and
+// symbolic int leaves (read from $.src so that both literal and path
+// arguments are exercised).
+func eqValue(shape int, x, y int64) any {
+	switch shape {
+	case 0:
+		return map[string]any{"a": nil, "b": x}
+	case 1:
+		return map[string]any{"b": x, "c": y}
+	case 2:
+		return map[string]any{"a": nil}
+	case 3:
+		return map[string]any{"b": x}
+	case 4:
+		return []any{nil, x}
+	case 5:
+		return []any{x, y}
+	case 6:
+		return map[string]any{"a": map[string]any{"b": nil, "c": x}}
+	}
+	return map[string]any{"a": map[string]any{"c": x, "d": y}}
+}
+
+// VerifC20_Equal: eq / neq on two containers (as values under $.src, given
+// by path): true iff the two trees are equal - the same keys with equal
+// values (a null member is not an absent member), the same elements in order.
+func VerifC20_Equal() {
+	neq := vx.Choose("fn", 2) == 1
+	s0, s1 := vx.Choose("left", numEqShapes), vx.Choose("right", numEqShapes)
+	x0, y0 := int64(vx.IntIn("x", 0, 3)), int64(vx.IntIn("y", 0, 3))
+	x1, y1 := int64(vx.IntIn("x", 0, 3)), int64(vx.IntIn("y", 0, 3))
+	v0, v1 := eqValue(s0, x0, y0), eqValue(s1, x1, y1)
+	fn := "eq"
+	if neq {
+		fn = "neq"
+	}
+	vx.Key("fn", fn)
+	vx.Key("left", s0)
+	vx.Key("right", s1)
+	p := NewPlan([]any{"set", "$.asm", []any{fn, "$.src.l", "$.src.r"}})
+	root := map[string]any{"src": map[string]any{"l": v0, "r": v1}}
+	var err error
+	pan := vx.Catch(func() { err = p.Execute(root) })
+	vx.Assert("no-panic:Execute", !pan)
+	if pan {
+		return
+	}
+	vx.Assert("no-error-for-documented-arguments", err == nil)
+	if err != nil {
+		return
+	}
+	want := vref.TreeEqual(v0, v1)
+	if neq {
+		want = !want
+	}
+	got, isBool := root["asm"].(bool)
+	vx.Observe("got", got)
+	vx.Assert("result-as-documented", vx.And(isBool, got == want))
+	vx.Cover("true", got)
+	vx.Cover("false", !got)
+}
